@@ -13,6 +13,7 @@ import (
 	"fmt"
 	"math"
 	"reflect"
+	"regexp"
 	"sort"
 	"strconv"
 	"strings"
@@ -115,16 +116,16 @@ const (
 )
 
 type Val struct {
-	K VK
-	I int64
-	U uint64
-	F float64
-	S string
-	B bool
-	T time.Time
-	R reflect.Value // composite Go value
-	J interface{}   // composite JSON value
-	GK reflect.Kind // exact Go kind the value was read with (Invalid: literal / computed => int64, uint64, float64)
+	K  VK
+	I  int64
+	U  uint64
+	F  float64
+	S  string
+	B  bool
+	T  time.Time
+	R  reflect.Value // composite Go value
+	J  interface{}   // composite JSON value
+	GK reflect.Kind  // exact Go kind the value was read with (Invalid: literal / computed => int64, uint64, float64)
 	// place (for assignment): set by evalRef
 }
 
@@ -1285,6 +1286,18 @@ func strMethod(s, name string, args []Val) (Val, error) {
 		if len(args) == 0 {
 			return StrV(strings.TrimSpace(s)), nil
 		}
+	case "Split":
+		if a, ok := str(0); ok && len(args) == 1 {
+			return FromReflect(reflect.ValueOf(strings.Split(s, a))), nil
+		}
+	case "MatchString":
+		if a, ok := str(0); ok && len(args) == 1 {
+			m, err := regexp.MatchString(a, s)
+			if err != nil {
+				return Val{}, evalErr("MatchString: invalid pattern")
+			}
+			return BoolV(m), nil
+		}
 	case "In":
 		for _, a := range args {
 			if a.K != VString {
@@ -1346,6 +1359,68 @@ func builtin(name string, args []Val) (Val, error) {
 		if len(args) == 1 && args[0].IsNum() {
 			return FloatV(math.Abs(args[0].AsFloat())), nil
 		}
+	case "ContainsStr":
+		if len(args) == 2 && args[0].K == VComp && args[0].R.IsValid() && args[0].R.Kind() == reflect.Slice && args[0].R.Type().Elem().Kind() == reflect.String && args[1].K == VString {
+			for i := 0; i < args[0].R.Len(); i++ {
+				if args[0].R.Index(i).String() == args[1].S {
+					return BoolV(true), nil
+				}
+			}
+			return BoolV(false), nil
+		}
+	}
+	// the math family: Go's math function of the same name on float64 arguments (documented as such)
+	if f, ok := math1[name]; ok && len(args) == 1 && args[0].K == VFloat {
+		return FloatV(f(args[0].F)), nil
+	}
+	if f, ok := math2[name]; ok && len(args) == 2 && args[0].K == VFloat && args[1].K == VFloat {
+		return FloatV(f(args[0].F, args[1].F)), nil
+	}
+	switch name {
+	case "IsNaN":
+		if len(args) == 1 && args[0].K == VFloat {
+			return BoolV(math.IsNaN(args[0].F)), nil
+		}
+	case "IsInf":
+		if len(args) == 2 && args[0].K == VFloat && args[1].K == VInt {
+			return BoolV(math.IsInf(args[0].F, int(args[1].I))), nil
+		}
+	case "Signbit":
+		if len(args) == 1 && args[0].K == VFloat {
+			return BoolV(math.Signbit(args[0].F)), nil
+		}
+	case "Pow10":
+		if len(args) == 1 && args[0].K == VInt {
+			return FloatV(math.Pow10(int(args[0].I))), nil
+		}
+	case "Ldexp":
+		if len(args) == 2 && args[0].K == VFloat && args[1].K == VInt {
+			return FloatV(math.Ldexp(args[0].F, int(args[1].I))), nil
+		}
+	case "Jn":
+		if len(args) == 2 && args[0].K == VInt && args[1].K == VFloat {
+			return FloatV(math.Jn(int(args[0].I), args[1].F)), nil
+		}
+	case "Ilogb":
+		if len(args) == 1 && args[0].K == VFloat {
+			return IntV(int64(math.Ilogb(args[0].F))), nil
+		}
+	case "Float64bits":
+		if len(args) == 1 && args[0].K == VFloat {
+			return Val{K: VUint, U: math.Float64bits(args[0].F), GK: reflect.Uint64}, nil
+		}
 	}
 	return Val{}, ErrUnsupported
+}
+
+var math1 = map[string]func(float64) float64{
+	"Acos": math.Acos, "Acosh": math.Acosh, "Asin": math.Asin, "Asinh": math.Asinh, "Atan": math.Atan, "Atanh": math.Atanh, "Cbrt": math.Cbrt,
+	"Ceil": math.Ceil, "Cos": math.Cos, "Cosh": math.Cosh, "Erf": math.Erf, "Erfc": math.Erfc, "Erfcinv": math.Erfcinv, "Erfinv": math.Erfinv,
+	"Exp": math.Exp, "Exp2": math.Exp2, "Expm1": math.Expm1, "Floor": math.Floor, "Gamma": math.Gamma, "J0": math.J0, "J1": math.J1,
+	"MathLog": math.Log, "Log10": math.Log10, "Log1p": math.Log1p, "Log2": math.Log2, "Logb": math.Logb, "Round": math.Round,
+	"RoundToEven": math.RoundToEven, "Sin": math.Sin, "Sinh": math.Sinh, "Sqrt": math.Sqrt, "Tan": math.Tan, "Tanh": math.Tanh, "Trunc": math.Trunc,
+}
+
+var math2 = map[string]func(float64, float64) float64{
+	"Atan2": math.Atan2, "Copysign": math.Copysign, "Dim": math.Dim, "Hypot": math.Hypot, "Mod": math.Mod, "Pow": math.Pow, "Remainder": math.Remainder,
 }
